@@ -82,15 +82,16 @@ def features (dump : String) (T0 : Lang.TState) (i : Nat) (isValue : Bool) : Str
   | some prog =>
     let roots := (splitRoots dump).take (i + 1)
     let failed := ((Lang.rootChecks prog T0).take (i + 1)).flatten
+    let pick := if isValue then Lang.pickClass else Lang.pickStateClass
     if !roots.any rootHasAnyCall then
-      match Lang.pickClass failed with
+      match pick failed with
       | some c => c.name
       | none => "-"
     else if isValue && (match roots.getLast? with | some r => rootHasCall r "map_keys" | none => false) then
       "D_map_keys_type_def"
     else if roots.any rootHasClosure then "D_closure_effects_ignored"
     else
-      match Lang.pickClass (failed.filter fun c => c != Lang.Chk.outOfModel && c != Lang.Chk.structural) with
+      match pick (failed.filter fun c => c != Lang.Chk.outOfModel && c != Lang.Chk.structural) with
       | some c => c.name
       | none => "D_call_typing"
 
